@@ -82,6 +82,7 @@ func c12(r *Report) {
 	}
 	r.Gate(Gate{ID: "C12.wallet.candidate-matches-definition-format", Fn: mcs, Effect: setVC, Check: fmtCheck("PresentationDefinition")})
 	r.Gate(Gate{ID: "C12.wallet.candidate-matches-descriptor-format", Fn: mcs, Effect: setVC, Check: fmtCheck("InputDescriptor")})
+	c12Audit3(r)
 	mc := p.Func(pePkg, "", "matchCredential")
 	r.Gate(Gate{ID: "C12.wallet.matchCredential", Fn: mc, Effect: ReturnsBool(0, true), Check: CallCheck(Fn(pePkg, "", "matchConstraint"), 0, IsTrue),
 		Alt: []Check{CmpCheck("descriptor.Constraints == nil", token.EQL, FieldV("InputDescriptor", "Constraints"), NilV(), true)}})
